@@ -9,6 +9,7 @@ import Driver.C08
 import Driver.Nla
 import Driver.Cssp
 import Driver.Conn
+import Driver.Gui
 /-
   Line-protocol driver: one case per input line (`<op> <args…>`), one output line per
   case: `<model outcome>\t<oracle expectation or ->`.  Built from the very definitions the
@@ -31,6 +32,7 @@ def handle (line : String) : String :=
     else if op == "cssp" then csspOp toks
     else if op == "conn" then connOp toks
     else if op == "strict" then strictOp toks
+    else if op == "gui" then guiOp toks
     else if op == "x224_conn" || op == "gcc_ccr" || op == "lic" || op == "mcs_conn" || op == "sec_conn" then connectOps toks
     else if op == "msg_wr" || op == "msg_rd" || op == "msg_rt" then c18 toks
     else "bad-op"
